@@ -200,6 +200,9 @@ func firstLine(err error) string {
 }
 
 func oracleErr(c ErrCase) error {
+	if c.Limit == "bytes" {
+		c.SQL = oversizedInput // 10 MiB + 8 bytes: kept out of the case (and of replay files)
+	}
 	errs := call(c.Entry, c.SQL)
 	if len(errs) == 0 {
 		return nil // accepted by this entry point: not in the domain
@@ -236,6 +239,9 @@ func oracleErr(c ErrCase) error {
 		if lexSig != nil && i == 0 && !dialectEntry[c.Entry] && (s.code != lexSig.code || s.line != lexSig.line || s.col != lexSig.col) {
 			return fmt.Errorf("[%s] lexical error reported as %s at %d:%d, the tokenizer reports %s at %d:%d for the same input", c.Entry, s.code, s.line, s.col, lexSig.code, lexSig.line, lexSig.col)
 		}
+		if (s.line >= 1) != (s.col >= 1) || s.line < 0 || s.col < 0 {
+			return fmt.Errorf("[%s] error %s carries the half-set location %d:%d (locations are 1-based: both parts or neither)", c.Entry, s.code, s.line, s.col)
+		}
 		if s.line >= 1 && s.col >= 1 {
 			if s.line > len(lines) || s.col > 4*len(lines[s.line-1])+1 {
 				return fmt.Errorf("[%s] error %s located at %d:%d, outside the input (%d lines)", c.Entry, s.code, s.line, s.col, len(lines))
@@ -271,9 +277,20 @@ func oracleErr(c ErrCase) error {
 
 var errCheck = hx.NewCheck("structured_errors", oracleErr)
 
+var oversizedInput = "SELECT 1" + strings.Repeat(" ", tokenizer.MaxInputSize)
+
+// kindOf maps the drawn number to a kind of rejected input: 0-10 as before (cyclically), one draw
+// in about 130 is the oversized input (10 MiB: cheap to reject, not cheap to build 40 000 times).
+func kindOf(n int) int {
+	if n%134 == 133 {
+		return 11
+	}
+	return n % 11
+}
+
 func genRejected(rt *rapid.T) (string, []string) {
 	f := lexgen.Features{StringStartsWithDoubledQuote: false, TrailingComment: true, Comments: true}
-	switch rapid.IntRange(0, 10).Draw(rt, "kind") {
+	switch kindOf(rapid.IntRange(0, 400).Draw(rt, "kind")) {
 	case 10: // a well-formed number of another form where the statement has an integer (LIMIT 1.5, OFFSET 1e3, FETCH FIRST 99999999999999999999 ROWS)
 		g := sqlgen.New(rt, sqlgen.FullFeatures())
 		toks := sqlgen.Statement(g).Toks
@@ -336,6 +353,8 @@ func genRejected(rt *rapid.T) (string, []string) {
 			s = strings.Repeat("WITH c AS (", n) + "SELECT 1" + strings.Repeat(") SELECT 1", n)
 		}
 		return s, []string{"limit_nesting", "nest_" + fam, "failing_token_not_first"}
+	case 11: // over the byte limit: rejected before anything is read
+		return "", []string{"limit_bytes", "failing_token_not_first"} // the text is built by the oracle (Limit: "bytes")
 	default: // statement that begins with a non-statement token
 		w := rapid.SampledFrom([]string{"FROM t", "WHERE a = 1", ") SELECT 1", "x1 y2", "42", "'s'", "AND", ", a"}).Draw(rt, "start")
 		return w, []string{"bad_start"}
@@ -454,7 +473,10 @@ func TestErrorIndependentOfEarlierStatements(t *testing.T) {
 // genStructuredErrors is the case generator of errCheck (shared by the rapid run and the native fuzz target).
 func genStructuredErrors(rt *rapid.T) ErrCase {
 	s, cl := genRejected(rt)
-	if lead := rapid.SampledFrom([]string{"", "", "", "\n", "\n\n\n  ", "\r\n\t", " \n", "-- c\n\n", "\t\t"}).Draw(rt, "lead"); lead != "" {
+	oversized := len(cl) > 0 && cl[0] == "limit_bytes"
+	if oversized {
+		// nothing else is drawn for it
+	} else if lead := rapid.SampledFrom([]string{"", "", "", "\n", "\n\n\n  ", "\r\n\t", " \n", "-- c\n\n", "\t\t"}).Draw(rt, "lead"); lead != "" {
 		// blank lines, indentation or a comment line in front: locations count from the start of the text given
 		s = lead + s
 		cl = append(cl, "leading_layout")
@@ -467,7 +489,11 @@ func genStructuredErrors(rt *rapid.T) ErrCase {
 		}
 	}
 	code := ""
-	if errs := call("gosqlx.Parse", s); len(errs) > 0 {
+	probe := s
+	if oversized {
+		probe = oversizedInput
+	}
+	if errs := call("gosqlx.Parse", probe); len(errs) > 0 {
 		var se *goerrors.Error
 		if errors.As(errs[0], &se) {
 			code = string(se.Code)
@@ -482,6 +508,9 @@ func genStructuredErrors(rt *rapid.T) ErrCase {
 	for _, c := range cl {
 		if c == "limit_nesting" {
 			lim = "nesting"
+		}
+		if c == "limit_bytes" {
+			lim = "bytes"
 		}
 	}
 	return ErrCase{SQL: s, Entry: e, Limit: lim}
